@@ -198,7 +198,14 @@ static std::string runCase(const std::string& id, std::vector<std::string>& tk) 
       int n = nextI(); cx.st.push_back(cx.pop().Refine(n));
     } else if (t == "splitplane") {
       double x = nextI(), y = nextI(), z = nextI(), off = nextI(); int which = nextI();
-      auto pr = cx.pop().SplitByPlane({x, y, z}, off / 4.0); cx.st.push_back(which == 0 ? pr.first : pr.second);
+      Manifold a = cx.pop();
+      a.GetCsgLeafNode().GetImpl();   // evaluate the operand first: the next ID reserved is then the cutter's
+      // SplitByPlane builds its half-space from the library original Manifold::Cube(vec3(2), true) (src/manifold.cpp
+      // Halfspace); that cube is the first ID reserved inside the call.  Register an identical cube as its source.
+      const uint32_t cutterID = cx.counter();
+      auto pr = a.SplitByPlane({x, y, z}, off / 4.0);
+      cx.addSource("halfspace", cutterID, -1, Manifold::Cube(vec3(2.0), true).GetMeshGL64());
+      cx.st.push_back(which == 0 ? pr.first : pr.second);
     } else if (t == "split") {
       int which = nextI(); Manifold b = cx.pop(), a = cx.pop();
       auto pr = a.Split(b); cx.st.push_back(which == 0 ? pr.first : pr.second);
